@@ -38,7 +38,11 @@ def run_one(args):
     try:
         w.start()
         d = coredrv.CoreDriver(w)
-        done = d.run(schedule)
+        if isinstance(schedule, dict):
+            done = d.run_concurrent({int(k): v for k, v in schedule["concurrent"].items()}, schedule["seed"],
+                                    schedule.get("gate_prob", 0.3))
+        else:
+            done = d.run(schedule)
         d.finish()
         tr = d.trace()
         errs = [str(e.get("message")) + " " + repr(e.get("exception")) for e in w.loop.errors]
